@@ -71,6 +71,12 @@ def generate(rng, tier):
                 pin = q * 10 ** j + d
                 if 0 <= pin < (1 << 32):
                     cs += hash_case(rng, pin, rng.getrandbits(32), "pin-at-multiple-of-10^%d" % j)
+    # binary boundaries of the PIN (where a narrower integer type, a shift or a mask first goes wrong): 2^k - 1, 2^k, 2^k + 1 for every k
+    for k in range(10, 33):
+        for d in (-1, 0, 1):
+            pin = (1 << k) + d
+            if 1000 <= pin < (1 << 32):
+                cs += hash_case(rng, pin, rng.choice([0, 1, rng.getrandbits(32)]), "pin-at-2^%d" % k)
     # literals of the source under test (gen_util.source_dictionary): as PINs and as seeds
     for v in new_ints(0, (1 << 32) - 1) + rng.sample(dict_ints(0, (1 << 32) - 1), 12):
         cs += hash_case(rng, v, rng.getrandbits(32), "source-literal-as-pin")
